@@ -19,22 +19,28 @@ from hl7apy.parser import parse_segment, parse_message, parse_field
 
 # ---- op codes ------------------------------------------------------------------------------------------
 (NOP, SET, ADD, IDX, DELI, SETLONG, ADDH, DELN, REM, COPY, SETELEM,
- REATTACH, WRONGCLS, OTHERVER, OTHERLVL, SETWRONG, READ, SETBADVAL, IDXELEMLVL, SETELEMVER, DTCHANGE) = range(21)
+ REATTACH, WRONGCLS, OTHERVER, OTHERLVL, SETWRONG, READ, SETBADVAL, IDXELEMLVL, SETELEMVER, DTCHANGE,
+ NESTED, REATTACHBAD, SETDT, SETVALUE, PROXYVAL) = range(26)
 OPNAMES = ['nop', 'set-by-name', 'add(elem)', 'proxy[i]=v', 'del proxy[i]', 'set-by-long-name', 'add_<child>()+value',
            'del by name', 'children.remove', 'copy from other element', 'set-by-name(elem)',
            'other.add(child of target)', 'add(elem of wrong class)', 'add(elem of other version)',
            'add(elem of other validation level)', 'set-by-name(elem with another name)', 'read-only traversal',
            'set-by-name(invalid value)', 'proxy[i]=elem of other validation level', 'set-by-name(elem of other version)',
-           'change datatype of populated child']
+           'change datatype of populated child', 'nested set through the proxy (el.child.sub = v)',
+           'other-level element .add(child of target)', 'set-by-name(base datatype object)',
+           'el.value = text with a repeated non-repeatable child', 'el.child.value = value invalid under STRICT']
 CORE_OPS = [SET, ADD, IDX, DELI]
-FULL_OPS = [SET, ADD, IDX, DELI, SETLONG, ADDH, DELN, REM, COPY, SETELEM]
+FULL_OPS = [SET, ADD, IDX, DELI, SETLONG, ADDH, DELN, REM, COPY, SETELEM, NESTED]
 # operations that are meant to be refused (or that stress attachment) - used by C10 / C12
-REJECT_OPS = [REATTACH, WRONGCLS, OTHERVER, OTHERLVL, SETWRONG, READ, SETBADVAL, IDXELEMLVL, SETELEMVER, DTCHANGE]
+REJECT_OPS = [REATTACH, WRONGCLS, OTHERVER, OTHERLVL, SETWRONG, READ, SETBADVAL, IDXELEMLVL, SETELEMVER, DTCHANGE, REATTACHBAD,
+              SETDT, SETVALUE, PROXYVAL]
 
 TARGETS = {
-    'seg': dict(names=['PID_3', 'PID_5', 'PID_8'], longs=['PATIENT_IDENTIFIER_LIST', 'PATIENT_NAME', 'ADMINISTRATIVE_SEX']),
-    'msg': dict(names=['NK1', 'OBX', 'AL1'], longs=[None, None, None]),
-    'fld': dict(names=['XPN_1', 'XPN_2', 'XPN_7'], longs=['FAMILY_NAME', 'GIVEN_NAME', 'NAME_TYPE_CODE']),
+    'seg': dict(names=['PID_3', 'PID_5', 'PID_8'], longs=['PATIENT_IDENTIFIER_LIST', 'PATIENT_NAME', 'ADMINISTRATIVE_SEX'],
+                nested=['cx_1', 'xpn_1', None]),
+    'msg': dict(names=['NK1', 'OBX', 'AL1'], longs=[None, None, None], nested=['nk1_1', 'obx_1', 'al1_1']),
+    'fld': dict(names=['XPN_1', 'XPN_2', 'XPN_7'], longs=['FAMILY_NAME', 'GIVEN_NAME', 'NAME_TYPE_CODE'],
+                nested=['fn_1', None, None]),
 }
 NIDX = 3  # repetition indices 0..2
 
@@ -52,10 +58,12 @@ def actions(target, ops, names=None, nidx=None):
                 continue
             if op == SETLONG and TARGETS[target]['longs'][n] is None:
                 continue
-            if op in (WRONGCLS, READ) and n != (names[0] if names else 0):
+            if op == NESTED and TARGETS[target]['nested'][n] is None:
+                continue
+            if op in (WRONGCLS, READ, SETVALUE) and n != (names[0] if names else 0):
                 continue   # the child name is irrelevant for these
-            if op in (IDX, DELI, REM, REATTACH, IDXELEMLVL):
-                for i in range(nidx if op != REATTACH else 2):
+            if op in (IDX, DELI, REM, REATTACH, IDXELEMLVL, REATTACHBAD):
+                for i in range(nidx if op not in (REATTACH, REATTACHBAD) else 2):
                     acts.append((op, n, i))
             else:
                 acts.append((op, n, 0))
@@ -149,7 +157,7 @@ def _other(target, level):
 
 
 # ---- one step: real element and model --------------------------------------------------------------------------
-def apply_real(target, el, act, step, level, other=None, offered=None):
+def apply_real(target, el, act, step, level, other=None, offered=None, otherbad=None):
     """perform the action on the real element; raises whatever hl7apy raises.
     `other` is a second element of the same kind (for re-attachment); `offered` (a list) receives the child object
     that was offered to the target, if the action offers one"""
@@ -164,6 +172,36 @@ def apply_real(target, el, act, step, level, other=None, offered=None):
     if op == REATTACH:
         c = getattr(el, name.lower())[i]
         other.add(c)
+        return
+    if op == REATTACHBAD:
+        c = getattr(el, name.lower())[i]
+        otherbad.add(c)
+        return
+    if op == SETDT:
+        from hl7apy.base_datatypes import ST
+        setattr(el, name.lower(), ST(tok(step)))
+        return
+    if op == SETVALUE:
+        # whole-value assignment whose text repeats a child that may occur once (refused under STRICT)
+        if target == 'seg':
+            el.value = 'PID|1~2||%s' % tok(step)
+        elif target == 'fld':
+            el.value = '%s^x' % tok(step)
+        else:
+            el.value = 'MSH|^~\\&|||||2020||ADT^A01^ADT_A01|1|P|2.5\rEVN||2020\rEVN||2021\rPID|||9||S'
+        return
+    if op == PROXYVAL:
+        # value assigned at the end of a traversal chain; invalid for the datatype under STRICT
+        if target == 'seg':
+            getattr(el, ['pid_7', 'pid_29', 'pid_33'][n]).value = 'notadate'
+        elif target == 'fld':
+            getattr(el, name.lower()).value = 'a&b&c&d&e&f&g&h&i&j&k&l&m'
+        else:
+            getattr(el, ['pv2', 'evn', 'pd1'][n]).value = 'XXX|1'
+        return
+    if op == NESTED:
+        # assignment through the (possibly empty) proxy: creates the child lazily, or edits the first repetition
+        setattr(getattr(el, name.lower()), TARGETS[target]['nested'][n], tok(step).replace('V', '1') if target == 'msg' else tok(step))
         return
     if op == WRONGCLS:
         c = Segment('PID', version='2.5', validation_level=level) if target != 'msg' else \
@@ -275,7 +313,7 @@ def apply_model(target, model, act, step, level):
     model = list(model)
     if op == NOP:
         return model
-    if op in (SET, SETLONG, SETELEM, COPY):
+    if op in (SET, SETLONG, SETELEM, COPY, NESTED):
         if op == COPY:
             t = _other_values(target)[name]
         if mine:
@@ -453,22 +491,23 @@ def run_checks(target, init, level, acts, mode, trace=None):
     reset_defaults()
     el, _ = make(target, init, level)
     other, _ = make(target, 0, level)
+    otherbad, _ = make(target, 0, 1 if level == 2 else 2)     # same kind of element, other validation level
     root = el
     if target == 'seg':
         root = Message('ADT_A01', version='2.5', validation_level=level)
         root.msh.msh_7 = '2020'
         root.add(el)
     if mode == 'inv':
-        msg = check_tree([root, other])
+        msg = check_tree([root, other, otherbad])
         if msg:
             if trace is not None:
                 trace.append('initial state inconsistent: ' + msg)
             return False
     for step, act in enumerate(acts, 1):
-        before = (snapshot(root), snapshot(other)) if mode == 'atomic' else None
+        before = (snapshot(root), snapshot(other), snapshot(otherbad)) if mode == 'atomic' else None
         offered = []
         try:
-            apply_real(target, el, act, step, level, other, offered)
+            apply_real(target, el, act, step, level, other, offered, otherbad)
             raised = None
         except Exception as e:
             raised = e
@@ -480,13 +519,13 @@ def run_checks(target, init, level, acts, mode, trace=None):
             except Exception as e:
                 trace.append('      (to_er7 raised %r)' % (e,))
         if mode == 'inv':
-            msg = check_tree([root, other])
+            msg = check_tree([root, other, otherbad])
             if msg:
                 if trace is not None:
                     trace.append('   INCONSISTENT: ' + msg)
                 return False
         elif raised is not None:
-            after = (snapshot(root), snapshot(other))
+            after = (snapshot(root), snapshot(other), snapshot(otherbad))
             if after != before:
                 if trace is not None:
                     trace.append('   NOT ATOMIC: before %r / %r\n               after  %r / %r' % (
